@@ -10,11 +10,11 @@
  *   - chomp / get_word / get_pword / temp_file: model functions with the text of their declared contracts.
  *   (Each call replaced by DFCC itself costs nine arrays indexed by object number; with the dozen call sites of this
  *   function the SAT instance had 20M variables.  The enforced function itself is checked by DFCC in full.)
- * Units (behaviour split, disjoint extra preconditions):
- *   parse_line                a directive word follows a '%' (or the line is not a directive); not "second %preproc"
- *   parse_line_preproc_again  a %preproc line in a file that was already preprocessed  -> finding C09-preproc-shadow-fp
- *   parse_line_bare_pct       '%' not followed by a plain character (no directive word) -> finding C11-bare-percent
- * Run time: 4-8 minutes each (4M SAT variables), which is why the two finding units are `quick: no`. */
+ * One unit covers every behaviour of the file mode.  The two behaviours that had their own (failing) units while
+ * the defects were open — a second %preproc in a preprocessed file (C09-preproc-shadow-fp, fixed 4b67cd0) and a '%'
+ * without a directive word (C11-bare-percent, fixed 9caaf35) — are ordinary paths of this unit now: the get_pword
+ * model may return NULL whenever the text does not start with a plain character, and no clause is excused.
+ * Run time: 4-8 minutes (4M SAT variables). */
 
 /*@unit
 name: ctx_lookup
@@ -24,36 +24,20 @@ enforce: v_ctx_lookup
 backend: sat
 loops: 1
 timeout: 200
+native: conf_replay
+native_includes: conf.c
 */
 /*@unit
 name: parse_line
-define: U_PARSE_LINE, VERIF_PWORD1_PRESENT, VERIF_CONF_ANNOT, VERIF_OWN_STRCMP, VERIF_OWN_STRCHR, VERIF_CONF_REBIND, VERIF_LOOKUP_MODEL, VERIF_CONF_PUSH_MODELS, VERIF_CONF_CALL_MODELS
+define: U_PARSE_LINE, VERIF_CONF_ANNOT, VERIF_OWN_STRCMP, VERIF_OWN_STRCHR, VERIF_CONF_REBIND, VERIF_LOOKUP_MODEL, VERIF_CONF_PUSH_MODELS, VERIF_CONF_CALL_MODELS
 src: conf.c
 enforce: spifconf_parse_line
 prepass: --replace-calls spifconf_shell_expand:v_m_shell_expand --replace-calls spifconf_open_file:v_m_open_file
 backend: sat
 timeout: 1800
 funcs: v_ctx_lookup, spifconf_register_context_state, spifconf_register_fstate
-*/
-/*@unit
-name: parse_line_preproc_again
-define: U_PARSE_LINE, U_PL_EXC, VERIF_PWORD1_PRESENT, VERIF_CONF_ANNOT, VERIF_OWN_STRCMP, VERIF_OWN_STRCHR, VERIF_CONF_REBIND, VERIF_LOOKUP_MODEL, VERIF_CONF_PUSH_MODELS, VERIF_CONF_CALL_MODELS
-src: conf.c
-enforce: spifconf_parse_line
-prepass: --replace-calls spifconf_shell_expand:v_m_shell_expand --replace-calls spifconf_open_file:v_m_open_file
-backend: sat
-timeout: 1800
-quick: no
-*/
-/*@unit
-name: parse_line_bare_pct
-define: U_PARSE_LINE, U_PL_BARE_PCT, VERIF_PWORD1_ABSENT, VERIF_CONF_ANNOT, VERIF_OWN_STRCMP, VERIF_OWN_STRCHR, VERIF_CONF_REBIND, VERIF_LOOKUP_MODEL, VERIF_CONF_PUSH_MODELS, VERIF_CONF_CALL_MODELS
-src: conf.c
-enforce: spifconf_parse_line
-prepass: --replace-calls spifconf_shell_expand:v_m_shell_expand --replace-calls spifconf_open_file:v_m_open_file
-backend: sat
-timeout: 1800
-quick: no
+native: conf_replay
+native_includes: conf.c
 */
 #include "vprelude.h"
 #include "env_conf.h"
